@@ -777,8 +777,9 @@ func storeScenarios() []*mc.Scenario {
 			// Three overlapping requests on two colliding digests.
 			name:    "store-overlap-3",
 			scripts: [][]scriptCall{{upd(dA), tch(dB)}, {upd(dA)}, {tch(dA)}},
-			bounds:  unbounded(0),
-			shards:  8,
+			// Unbounded needs more than 2.5 million executions.
+			bounds: map[string]int{"quick": 0, "thorough": 2},
+			shards: 8,
 		},
 		{
 			// Requests arriving while a write-back started by the previous
@@ -790,7 +791,6 @@ func storeScenarios() []*mc.Scenario {
 			putFaults: true,
 			getFaults: true,
 			bounds:    unbounded(1),
-			shards:    8,
 		},
 		{
 			// The same arrival pattern with dirty handles of both digests.
@@ -799,7 +799,6 @@ func storeScenarios() []*mc.Scenario {
 			sequenced: afterPut,
 			putFaults: true,
 			bounds:    unbounded(1),
-			shards:    8,
 		},
 		{
 			// Directed: a handle is released clean, hence queued a second
@@ -818,7 +817,6 @@ func storeScenarios() []*mc.Scenario {
 				func(e *storeEnv) bool { return e.holds(5) || e.isDone(5) },
 			},
 			bounds: map[string]int{"quick": 2, "thorough": -1},
-			shards: 8,
 		},
 	}
 	var out []*mc.Scenario
